@@ -113,8 +113,13 @@ func c01Property(rt *rapid.T, ev *evid.Rec, o machineOpts, faults bool) {
 	}
 	var pending *sim.Fault
 	pendingKind := "" // "" = the next request, else the next request of this kind
+	pendingSkip := 0
 	w.SetHook(func(s *SourceCfg, n *sim.Node, ri sim.ReqInfo) *sim.Fault {
 		if pending == nil || (pendingKind != "" && ri.Kind != pendingKind) {
+			return nil
+		}
+		if pendingSkip > 0 {
+			pendingSkip-- // the fault is meant for a later request of that kind (e.g. a middle partition)
 			return nil
 		}
 		f := pending
@@ -143,12 +148,16 @@ func c01Property(rt *rapid.T, ev *evid.Rec, o machineOpts, faults bool) {
 		case 3:
 			if faultBudget > 0 {
 				faultBudget--
-				pendingKind = ""
+				pendingKind, pendingSkip = "", 0
+				if rapid.Bool().Draw(rt, "targeted") {
+					pendingKind = rapid.SampledFrom([]string{"logs", "blocks", "headers", "receipts"}).Draw(rt, "faulton")
+					pendingSkip = rapid.IntRange(0, 3).Draw(rt, "faultskip")
+				}
 				switch rapid.IntRange(0, 5).Draw(rt, "faultkind") {
 				case 4, 5:
 					// answered by a replica that lags behind the head the task was told about
 					pending = &sim.Fault{Lag: rapid.IntRange(1, 4).Draw(rt, "lag")}
-					pendingKind = rapid.SampledFrom([]string{"logs", "logs", "receipts", "blocks", "headers", "traces"}).Draw(rt, "lagkind")
+					pendingKind, pendingSkip = rapid.SampledFrom([]string{"logs", "logs", "receipts", "blocks", "headers", "traces"}).Draw(rt, "lagkind"), 0
 					m.label("lagging-replica")
 				case 0:
 					pending = &sim.Fault{Status: 503}
